@@ -53,6 +53,12 @@ func VerifNewAmp(validated bool, pers protocol.Perspective) *VerifAmp {
 	return &VerifAmp{h: h.(*sentPacketHandler), rtt: rtt}
 }
 
+// VerifWrapAmp wraps the sentPacketHandler a connection created for itself.
+func VerifWrapAmp(h SentPacketHandler) *VerifAmp {
+	sph := h.(*sentPacketHandler)
+	return &VerifAmp{h: sph, rtt: sph.rttStats}
+}
+
 func (a *VerifAmp) Handler() SentPacketHandler { return a.h }
 
 // Counters returns the three fields the amplification limit is computed from.
